@@ -119,17 +119,20 @@ Section Model.
     | Some s => SOk (negb (sl_weight s =? 0))
     end.
 
-  Definition isValid (b : builder) (pos : N) (sig : Sig) (verifySig : bool) : spres unit :=
+  (* IsValid with /verif/fixes/C39.patch: the signature must also be committable (checked
+     outside the verifySig branch).  [isValid_unfixed] is the code before the patch. *)
+  Definition isValid_gen (fixed : bool) (b : builder) (pos : N) (sig : Sig) (verifySig : bool) : spres unit :=
     match nth_error (b_parts b) (N.to_nat pos) with
     | None => SErr EPosBound
     | Some p =>
         if pt_weight p =? 0 then SErr EZeroWeight
-        else if verifySig then
-          if negb (salt_ok sig scheme_salt) then SErr ESalt
-          else if negb (sig_ok (pt_pk p) (b_round b) (b_data b) sig) then SErr ESig
-          else SOk tt
+        else if verifySig && negb (salt_ok sig scheme_salt) then SErr ESalt
+        else if verifySig && negb (sig_ok (pt_pk p) (b_round b) (b_data b) sig) then SErr ESig
+        else if fixed && negb (commit_ok sig) then SErr ECommit
         else SOk tt
     end.
+  Definition isValid := isValid_gen true.
+  Definition isValid_unfixed := isValid_gen false.
 
   Definition add (b : builder) (pos : N) (sig : Sig) : spres builder :=
     match present b pos with
